@@ -93,6 +93,24 @@ mutual
         ++ (match kwarg with | some v => [.store v] | none => [])
 end
 
+/-- the targets are exactly one plain name -/
+def singleName : List Expr → Option Str
+  | [.name x] => some x
+  | _ => none
+
+/-- elements of a list / tuple display -/
+def seqElts : Expr → Option (List Expr)
+  | .list es => some es
+  | .tuple es => some es
+  | _ => none
+
+/-- `_visit__all__`: `__all__ = [<string constants>]` (single Name target) treats the strings as deferred loads -/
+def cAll (targets : List Expr) (v : Expr) : List Op :=
+  match singleName targets, seqElts v with
+  | some n, some es =>
+    if n = "__all__".toList then (match strConsts es with | some ns => [.allNames ns] | none => []) else []
+  | _, _ => []
+
 def cOptExpr : Option Expr → List Op
   | none => []
   | some e => cExpr e
@@ -123,11 +141,7 @@ mutual
   def cStmt (ln : Nat) : Stmt → List Op
     | .expr e => cExpr e
     | .assign targets v =>
-      cExpr v ++ cTargets targets ++
-        (match targets, v with
-         | [.name n], .list es => if n = "__all__".toList then (match strConsts es with | some ns => [.allNames ns] | none => []) else []
-         | [.name n], .tuple es => if n = "__all__".toList then (match strConsts es with | some ns => [.allNames ns] | none => []) else []
-         | _, _ => [])
+      cExpr v ++ cTargets targets ++ cAll targets v
     | .augAssign t v => cTarget t ++ cExpr v
     | .annAssign t ann v => cTarget t ++ cExpr ann ++ cOptExpr v
     | .import_ names => (names.map (cAlias false)).flatten
